@@ -6,7 +6,7 @@ F = [b"text[^a] ", b"more[^b] ", b"again[^a] ", b"inl[^inline *note*] ", b"cite[
      b"ab[>HTML] ", b"see [Head One][] ", b"see [Second][] ", b"see [lbl][] ", b"see [Third] ", b"tab [Cap One][] ", b"tab2 [Cap Two][] ", b"tab3 [tlab][] ", b"tab4 [Cap Three][] [tl3][] ", b"punct [What's this? -- \xc3\xa9t\xc3\xa9!][] ", b"plain "]
 DEFS = (b"\n\n[^a]: note a\n\n[^b]: note b with[^a] nested\n\n[^unused]: never\n\n[#c1]: Cite one\n\n[#c2]: Cite two\n\n[?term]: a definition\n\n[>HTML]: Hyper Text\n\n"
         b"# Head One #\n\nSecond\n------\n\n### Third [lbl] ###\n\n# Head One #\n\n## What's this? -- \xc3\xa9t\xc3\xa9! ##\n\nTrailing-\n=========\n\n| a | b |\n|---|---|\n| c | d |\n[Cap One]\n\n| e |\n|---|\n| f |\n[Cap Two] [tlab]\n\n[Cap Three][tl3]\n| g |\n|---|\n| h |\n")
-WRAP = [("para", b"%s"), ("list", b"* %s\n* x"), ("quote", b"> %s"), ("toc", b"{{TOC}}\n\n%s"), ("nested", b"* a\n\n    * %s\n")]
+WRAP = [("para", b"%s"), ("list", b"* %s\n* x"), ("quote", b"> %s"), ("toc", b"{{TOC}}\n\n%s"), ("toc-range", b"{{TOC:2-3}}\n\n%s"), ("nested", b"* a\n\n    * %s\n")]
 E = mmd.EXT
 OPTS = [("default", mmd.EXT_DEFAULT, b""), ("random-foot", mmd.EXT_DEFAULT | E["RANDOM_FOOT"], b""), ("random-labels", mmd.EXT_DEFAULT | E["RANDOM_LABELS"], b""),
         ("no-labels", mmd.EXT_DEFAULT | E["NO_LABELS"], b""), ("base-header-2", mmd.EXT_DEFAULT | E["SNIPPET"], b"Base Header Level: 2\n\n"), ("base-header-3", mmd.EXT_DEFAULT | E["SNIPPET"], b"HTML Header Level: 3\n\n")]
@@ -16,7 +16,7 @@ def attr(s, name):
     m = re.search(name + rb'="([^"]*)"', s)
     return m.group(1).decode("utf-8", "replace") if m else None
 
-def analyse(html, not_cited=False, renamed=False):
+def analyse(html, not_cited=False, renamed=False, random_labels=False):
     """returns list of problems (signature fragment, detail)"""
     probs = []
     ids = {}; order = []
@@ -63,7 +63,21 @@ def analyse(html, not_cited=False, renamed=False):
         if cls.split() and cls.split()[0] in ("footnote", "citation", "glossary", "reversefootnote", "reversecitation", "reverseglossary"): continue
         if href[1:] not in ids:
             where = "toc-entry" if toc_span[0] <= pos < toc_span[1] else "cross-reference"
+            if where == "toc-entry" and random_labels:
+                # under --unique the recorded finding concerns entries AFTER a manually labelled heading (the counter runs ahead there);
+                # an entry that dangles before any manual label is something else
+                m = re.search(rb'href="#lbl"', html[toc_span[0]:toc_span[1]])
+                if not m or pos < toc_span[0] + m.start(): where = "toc-entry-before-any-manual-label"
             probs.append(("%s-dangling" % where, "link to %s but no element carries that id (ids: %r)" % (href, sorted(ids)[:12])))
+    # a TOC entry that resolves must resolve to the heading it names
+    if toc:
+        heads = {m.group(2): re.sub(rb"<[^>]*>", b"", m.group(3)).strip() for m in re.finditer(rb'<h([1-6]) id="([^"]*)"[^>]*>(.*?)</h\1>', html, re.S)}
+        for m in re.finditer(rb'<a href="#([^"]*)">(.*?)</a>', toc.group(1), re.S):
+            target, text = m.group(1), re.sub(rb"<[^>]*>", b"", m.group(2)).strip()
+            if target in heads and heads[target] != text:
+                lm = re.search(rb'href="#lbl"', toc.group(1))
+                after_manual = random_labels and lm is not None and m.start() > lm.start()
+                probs.append(("toc-entry-dangling" if after_manual else "toc-entry-wrong-target", "the entry %r links to #%s, which is the heading %r" % (text.decode("utf-8", "replace"), target.decode("utf-8", "replace"), heads[target].decode("utf-8", "replace"))))
     return probs
 
 def make_case(L):
@@ -78,7 +92,7 @@ def make_case(L):
         doc = meta + (w % body) + DEFS
         out = mmd.convert(doc, ext, 0)
         v = []; seen = set()
-        for frag, det in analyse(out, b"[Not cited]" in body, oname == "random-foot"):
+        for frag, det in analyse(out, b"[Not cited]" in body, oname == "random-foot", oname == "random-labels"):
             sig = "anchor:%s:%s" % (frag, oname)
             if sig in seen: continue
             seen.add(sig)
